@@ -1,5 +1,6 @@
 import MtailVerif.Proofs.ExportLocks
 import MtailVerif.Generated.ExportLocks
+import MtailVerif.Proofs.Skeletons
 /-! # C12 — No export attempt can leave metrics locked or stall processing
 
     `Generated.ExportLocks.all` holds, for each exporter loop, the lock/emitter skeleton
@@ -54,5 +55,11 @@ example : (exec 3 200 Generated.ExportLocks.collect ⟨0, .none, false⟩
 example : safe [.rlock, .spawn, .loop [.ifs [.ret]], .runlock, .ret] = false := by decide
 example : exec 2 50 [.rlock, .spawn, .loop [.ifs [.ret]], .runlock, .ret] ⟨0, .none, false⟩ [true]
     = some (.returned ⟨1, .running 1, false⟩, []) := by decide
+
+/-! ### regenerated control skeletons (written by lib/wire_skeletons.py) -/
+/-- Obligations over regenerated facts: the functions this property's model stands for have the
+    control skeleton the model was written against (`Proofs/Skeletons.lean`, one `rfl` per function
+    or clause; DESIGN.md §11.6a) -/
+theorem export_skeletons : Skeletons.ExportShape := Skeletons.export_shape
 
 end MtailVerif.C12
